@@ -48,6 +48,7 @@ fn eval(op: &str, args: &[&str]) -> Option<Vec<String>> {
         "tls" => tlsop::tls(args),
         "pool" => poolop::pool(args),
         "tconn" => poolop::tconn(args),
+        "urlauth" => poolop::urlauth(args),
         "wstall" => poolop::wstall(args),
         "ctor" => tlsop::ctor(args),
         "racc" => c15::racc(args),
